@@ -69,7 +69,7 @@ class C11(Check):
             for bits in itertools.product("01", repeat=n * n):
                 mats.append("/".join("".join(bits[i * n:(i + 1) * n]) for i in range(n)))
         for sd in seeds():
-            pick = rng.sample(bodies, 500) if quick else bodies
+            pick = rng.sample(bodies, 1500) if quick else bodies
             for body in pick:
                 c = rng.choice(CLASSES)
                 yield self.run(real, sd + ["obs", "adjdict %s %s" % (c, body)] + readback(3))
@@ -84,7 +84,7 @@ class C11(Check):
                           (".", "V0"), ("1", "."), ("10/01/11", "V0,V1,V2"), ("100/010", "V0,V1")]:
                 yield self.run(real, sd + ["obs", "adjmat D %s %s" % (vs, m)] + readback(3))
         # larger random inputs
-        for _ in range(100 if quick else 3000):
+        for _ in range(400 if quick else 3000):
             nv = rng.randint(1, 6)
             lines = ["reset"] + ["vertex " + rng.choice(["V", "SV"]) for _ in range(nv)]
             for _ in range(rng.randint(0, 3)):
@@ -209,7 +209,7 @@ class C20(Check):
         quick = tier == "quick"
         counts = list(range(1, 13)) + [15, 20, 33, 40] if quick else list(range(1, 41))
         conns = ["-", "0/1", "3/10", "1/1", "1/2", "7/10"]
-        reps = 1 if quick else 6
+        reps = 3 if quick else 10
         self.reprod = 0
         for count in counts:
             for conn in conns:
